@@ -1644,8 +1644,11 @@ def run(ck):
                        'filled from a set and only the resulting set is compared)',
                        'for molecules of more than 10 atoms the identifier dictionary observed on the implementation is compared with atom_identifiers g once and '
                        'then fed to fragments_with / morgan_hash_dict_with (whose instances at atom_identifiers g are fragments / morgan_hash_dict by definition)',
-                       'int(log2(length)) is modelled as Z.log2 length (exact for 0 < length < 2^49 - 1); numpy arrays (linear_fingerprint, morgan_fingerprint) '
-                       'and the SMILES-producing variants (linear_hash_smiles, morgan_hash_smiles, *_smiles_hash) are not modelled: search only',
+                       'int(log2(length)) is modelled as Z.log2 length (exact for 0 < length < 2^49 - 1); numpy arrays are modelled by Model.FingerprintVec, the '
+                       'SMILES dictionaries by Model.LinearSmiles / LinearSpell / MorganSmiles (canonical string of a substructure and set iteration order: observed inputs)',
+                       'the method bodies of linear.py / morgan.py, both _atom_identifiers and DynamicBond.__hash__ are translated from the source on every run '
+                       '(tools/gen_fpbodies.py -> Gen.FingerprintBodies) and proved equal to the hand-written model (C17_translated_*); trusted there: the meaning the '
+                       'translation rules give to the Python / numpy primitives (docstring of the translator) and the attribute -> record field table',
                        'molecules satisfy Graph.wf_mol (checked on every correspondence molecule); KeyError paths for dangling neighbours are not modelled; '
                        'CGR containers are modelled by Model.FingerprintCGR (skeleton with int(DynamicBond) as bond number + CGR identifier dictionary)']
     ck.extra['rule'] = ('PyHash: boundary ints around 0, -1, 2^61-1, 2^63, 2^64 and their pairs, then random ints/bools/nested tuples (depth <= 3, length <= 9) and flat int '
@@ -1666,8 +1669,9 @@ def run(ck):
         phase[name] = round(time.time() - t0, 1)
         return r
 
-    # tables read by Model.LinearSpell (element symbols, charge_str, organic_set, B C N P S) and the constants of Gen.FingerprintConsts
-    proved = timed('proof steps', common.standard_proof_steps, ck, ['elements', 'smiles_tables', 'fingerprints'])
+    # tables read by Model.LinearSpell (element symbols, charge_str, organic_set, B C N P S), the constants of Gen.FingerprintConsts and the
+    # statement-by-statement translation of the seven function bodies (Gen.FingerprintBodies, proved equal to the hand-written model)
+    proved = timed('proof steps', common.standard_proof_steps, ck, ['elements', 'smiles_tables', 'fingerprints', 'fpbodies'])
     tied_hash = timed('correspondence PyHash', corr_pyhash, ck)
     tied_fold, bad_fold = timed('correspondence folding', corr_folding, ck)
     tied_x, bad_x, by_tag_x = timed('correspondence exhaustive', corr_exhaustive, ck)
